@@ -24,6 +24,11 @@ def _w(rec):
     with open(LOG, "a") as f:
         f.write(json.dumps(rec) + "\\n")
 
+if os.environ.get("VERIF_E2E_PROBE"):
+    # what code running at conftest IMPORT time (command-line parsing in the worker) sees
+    _w({"ev": "import_probe", "env_worker": os.environ.get("PYTEST_XDIST_WORKER"), "env_count": os.environ.get("PYTEST_XDIST_WORKER_COUNT"),
+        "env_uid": os.environ.get("PYTEST_XDIST_TESTRUNUID"), "pid": os.getpid()})
+
 def pytest_runtest_logreport(report):
     if not hasattr(report, "node") and os.environ.get("PYTEST_XDIST_WORKER"):
         return            # worker side
@@ -38,7 +43,7 @@ def pytest_runtest_logreport(report):
 def pytest_collectreport(report):
     if os.environ.get("PYTEST_XDIST_WORKER"):
         return
-    if report.failed:
+    if report.failed or report.skipped:
         _w({"ev": "collectreport", "nodeid": report.nodeid, "outcome": report.outcome, "longrepr": str(report.longrepr)[:120]})
 
 @pytest.fixture(autouse=True)
@@ -121,6 +126,13 @@ def make_suite(rnd, proj, with_collect_error=False):
         files[f"test_f{f}.py"] = "\n".join(body)
     if with_collect_error:
         files["test_broken.py"] = "import pytest\nassert 1 == 2, 'collection blows up'\n\ndef test_never():\n    pass\n"
+        if True:
+            # DIFFERENT modules failing at the SAME place (a shared helper called at import time): still one report per module
+            files["helper_cfg.py"] = "def load():\n    raise RuntimeError('bad config')\n"
+            for nm in ("test_cfg_a.py", "test_cfg_b.py"):
+                files[nm] = "import helper_cfg\nCFG = helper_cfg.load()\n\ndef test_x():\n    pass\n"
+        if rnd.random() < 0.4:
+            files["test_skipmod.py"] = "import pytest\npytest.skip('whole module', allow_module_level=True)\n"
     for fn, src in files.items():
         open(os.path.join(proj, fn), "w").write(src)
     open(os.path.join(proj, "conftest.py"), "w").write(CONFTEST)
@@ -133,7 +145,7 @@ def canon_reports(recs):
     for r in recs:
         if r["ev"] == "report":
             out.append((r["nodeid"], r["when"], r["outcome"], json.dumps(r["props"]), json.dumps(r["sections"]),
-                        (r["longrepr"] or "")[:60] if r["outcome"] != "passed" else "", r["wasxfail"]))
+                        re.sub(r"0x[0-9a-fA-F]+", "0xADDR", (r["longrepr"] or ""))[:60] if r["outcome"] != "passed" else "", r["wasxfail"]))
     return sorted(out, key=str)
 
 
